@@ -147,6 +147,25 @@ func (p *Prog) pinnedPredicate() func(*ssa.Function) bool {
 		if len(cands) == 1 {
 			pinned[cands[0]] = true
 			taken[privateKey(cands[0])] = true
+			continue
+		}
+		// a method that became a function or a function that became a method: same bare name, declared once
+		bare := k
+		if i := strings.IndexByte(k, '.'); i >= 0 {
+			bare = k[i+1:]
+		}
+		var same []*ssa.Function
+		for ck, fn := range cur {
+			if taken[ck] || pinned[fn] {
+				continue
+			}
+			if fn.Name() == bare {
+				same = append(same, fn)
+			}
+		}
+		if len(same) == 1 {
+			pinned[same[0]] = true
+			taken[privateKey(same[0])] = true
 		}
 	}
 	return func(fn *ssa.Function) bool {
